@@ -265,7 +265,19 @@ def check_relative(case):
     stt = repo.mod("geodepy.statistics")
     lat, lon = case["lat"], case["lon"]
     v1, v2, c12 = (np.array(case[k], dtype=float) for k in ("var1", "var2", "cov12"))
-    got = stt.relative_error(lat, lon, v1, v2, c12)
+    rep = case.get("rep", "float")
+    a1, a2, a12 = v1, v2, c12
+    if rep != "float":
+        # the same request with whole numbers held in integer arrays (variances in mm^2, say): the blocks are scaled so that their
+        # largest entry is about 1e6 and rounded; the oracle then works on exactly those whole numbers
+        big = max(float(np.max(np.abs(m))) for m in (v1, v2, c12))
+        if not big > 0:
+            raise Discard()
+        v1, v2, c12 = (np.rint(m * (1e6 / big)) for m in (v1, v2, c12))
+        dt = np.int32 if rep == "int32" else np.int64
+        a1 = v1.astype(dt)
+        a2, a12 = (v2, c12) if rep == "int_var1" else (v2.astype(dt), c12.astype(dt))
+    got = stt.relative_error(lat, lon, a1, a2, a12)
     if not is_seq(got, 4):
         raise Fail("relative_error did not return (a, b, orientation, up)", observed=repr(got))
     e, n, u = _frame(lat, lon)
@@ -372,7 +384,8 @@ def relative_cases(draw):
         sc = draw(st.sampled_from([1.0, 1e-2, 1e-4]))
         return {"lat": lat, "lon": lon, "var1": (np.outer(b1, b1) * sc).tolist(), "var2": (np.outer(b2, b2) * sc).tolist(),
                 "cov12": (np.outer(b1, b2) * sc).tolist(), "corr": axis}
-    return {"lat": lat, "lon": lon, "var1": J[:3, :3].tolist(), "var2": J[3:, 3:].tolist(), "cov12": J[:3, 3:].tolist()}
+    return {"lat": lat, "lon": lon, "var1": J[:3, :3].tolist(), "var2": J[3:, 3:].tolist(), "cov12": J[:3, 3:].tolist(),
+            "rep": draw(st.sampled_from(["float", "float", "float", "float", "int", "int32", "int_var1"]))}
 
 
 def _nt_rot(case):
